@@ -313,8 +313,9 @@ class DIP:
                 target.branching.prepare_node(node)
                 # Clean node name from cases
                 node.name = node.clean_name()
-                # Set the node value
-                node.set_value()
+                # Set the node value (imported nodes bring their value with them)
+                if node.value is None or not node.isource:
+                    node.set_value()
                 # If node was previously defined, modify its value
                 for n in range(len(target.nodes)):
                     if target.nodes[n].name==node.name:
